@@ -26,7 +26,11 @@ def splinefunc(draw, sdim=None, pmin=0, pmax=4, nmax=3, vshapes=((), (), (2,), (
     cseed = [draw(st.integers(-16, 16)) / 4.0 for _ in range(23)]
     spec = {"nurbs": is_nurbs, "kvs": kvs, "vshape": vs, "cseed": cseed}
     if is_nurbs:
-        spec["wseed"] = [draw(st.integers(3, 24)) / 8.0 for _ in range(19)]
+        if draw(st.integers(0, 4)) == 0:
+            # polynomial NURBS: all weights exactly 1 (what BSplineFunc.as_nurbs() produces)
+            spec["wseed"] = [1.0] * 19
+        else:
+            spec["wseed"] = [draw(st.integers(3, 24)) / 8.0 for _ in range(19)]
     return spec
 
 
